@@ -42,21 +42,28 @@ type Config struct {
 	R1b *RuleSpec `json:"r1b,omitempty"`
 	// R1bFirst puts R1b in front of R1 in the loaded list
 	R1bFirst bool `json:"r1b_first,omitempty"`
+	// ReloadB > 0: the alphabet has a reload that replaces R1b by a rule with the threshold toggled
+	// between its own and ReloadB (entries may be in flight; all counters must be kept)
+	ReloadB int64 `json:"reload_r1b_threshold,omitempty"`
 }
 
 func (c Config) String() string { b, _ := json.Marshal(c); return string(b) }
 
 type opDef struct {
-	enter bool
-	res   string
-	val   string // "" = request without the selected argument
-	slot  int
-	miss  bool
-	later bool // a rule-check slot AFTER the hotspot slot rejects this request
-	short bool // only the first argument is passed (no value at index 1)
+	enter  bool
+	res    string
+	val    string // "" = request without the selected argument
+	slot   int
+	miss   bool
+	later  bool // a rule-check slot AFTER the hotspot slot rejects this request
+	short  bool // only the first argument is passed (no value at index 1)
+	reload bool
 }
 
 func (o opDef) String() string {
+	if o.reload {
+		return "reload(R1b threshold toggled)"
+	}
 	if o.miss {
 		return "poolMiss"
 	}
@@ -87,6 +94,7 @@ type scen struct {
 	slots  [maxLive]*live
 	misses int
 	chain  *base.SlotChain
+	r1bTh  int64 // threshold of R1b in force
 }
 
 // laterBlocker sits between the hotspot slot (order 4000) and the circuit breaker slot (5000).
@@ -116,6 +124,11 @@ func (s *scen) Enabled(i int) bool {
 		if o.short && s.cfg.R1b == nil {
 			return false
 		}
+	}
+	if o.reload {
+		return s.cfg.R1b != nil && s.cfg.ReloadB > 0
+	}
+	if o.enter {
 		for _, l := range s.slots {
 			if l == nil {
 				return true
@@ -141,19 +154,29 @@ func mkRule(res string, r RuleSpec) *hotspot.Rule {
 	return hr
 }
 
-func (s *scen) Reset() {
-	env.ResetAll(env.DefaultGeometry, 1700000000000)
+func (s *scen) ruleList() []*hotspot.Rule {
 	rules := []*hotspot.Rule{mkRule("r1", s.cfg.R1)}
 	if s.cfg.R1b != nil {
+		b := *s.cfg.R1b
+		b.Threshold = s.r1bTh
 		if s.cfg.R1bFirst {
-			rules = []*hotspot.Rule{mkRule("r1", *s.cfg.R1b), mkRule("r1", s.cfg.R1)}
+			rules = []*hotspot.Rule{mkRule("r1", b), mkRule("r1", s.cfg.R1)}
 		} else {
-			rules = append(rules, mkRule("r1", *s.cfg.R1b))
+			rules = append(rules, mkRule("r1", b))
 		}
 	}
 	if s.cfg.R3 != nil {
 		rules = append(rules, mkRule("r3", *s.cfg.R3))
 	}
+	return rules
+}
+
+func (s *scen) Reset() {
+	env.ResetAll(env.DefaultGeometry, 1700000000000)
+	if s.cfg.R1b != nil {
+		s.r1bTh = s.cfg.R1b.Threshold
+	}
+	rules := s.ruleList()
 	if _, err := hotspot.LoadRules(rules); err != nil {
 		panic(err)
 	}
@@ -218,6 +241,21 @@ func (s *scen) Apply(i int) (string, string) {
 		vsync.PoolMiss = func() bool { vsync.PoolMiss = nil; return true }
 		return "miss", ""
 	}
+	if o.reload {
+		if s.r1bTh == s.cfg.R1b.Threshold {
+			s.r1bTh = s.cfg.ReloadB
+		} else {
+			s.r1bTh = s.cfg.R1b.Threshold
+		}
+		rules := s.ruleList()
+		if _, err := hotspot.LoadRules(rules); err != nil {
+			return o.String(), "reload failed: " + err.Error()
+		}
+		if len(hotspot.GetRules()) != len(rules) {
+			return o.String(), "after the reload not all rules are in force"
+		}
+		return o.String(), s.invariants(o)
+	}
 	if !o.enter {
 		s.slots[o.slot].e.Exit()
 		s.slots[o.slot] = nil
@@ -242,7 +280,7 @@ func (s *scen) Apply(i int) (string, string) {
 		want = s.liveCount(o.res, o.val) < th
 		if want && o.res == "r1" && s.cfg.R1b != nil && !o.short {
 			// second rule: meters the decoy argument, i.e. all live r1 entries that carry it
-			want = s.decoyLive() < s.cfg.R1b.Threshold
+			want = s.decoyLive() < s.r1bTh
 		}
 	}
 	if o.later {
@@ -355,11 +393,12 @@ func (s *scen) invariants(o opDef) string {
 
 func (s *scen) Key() string {
 	var b strings.Builder
+	fmt.Fprintf(&b, "b%d|", s.r1bTh)
 	for _, l := range s.slots {
 		if l == nil {
 			b.WriteString("_;")
 		} else {
-			fmt.Fprintf(&b, "%s%s;", l.res, l.val)
+			fmt.Fprintf(&b, "%s%s%v;", l.res, l.val, l.short)
 		}
 	}
 	c1, _, _ := hotspot.VerifCounters("r1", 0)
@@ -377,6 +416,7 @@ func mkOps() []opDef {
 	}
 	ops = append(ops, opDef{enter: true, res: "r1", val: "A", later: true})
 	ops = append(ops, opDef{enter: true, res: "r1", val: "A", short: true})
+	ops = append(ops, opDef{reload: true})
 	for k := 0; k < maxLive; k++ {
 		ops = append(ops, opDef{slot: k})
 	}
@@ -401,6 +441,8 @@ func configs() []Config {
 		{R1: sp(1, map[string]int64{"B": 2}, false, 0), R1b: &RuleSpec{Threshold: 1, Index: 1}, R3: &r3},
 		{R1: sp(2, nil, false, 0), R1b: &RuleSpec{Threshold: 2, Index: 1}, R1bFirst: true},
 		{R1: sp(2, map[string]int64{"A": 1}, false, 0), R1b: &RuleSpec{Threshold: 3, Index: 1}, R1bFirst: true},
+		{R1: sp(2, nil, false, 0), R1b: &RuleSpec{Threshold: 2, Index: 1}, ReloadB: 3},
+		{R1: sp(1, nil, false, 0), R1b: &RuleSpec{Threshold: 3, Index: 1}, R1bFirst: true, ReloadB: 1},
 	}
 }
 
